@@ -19,8 +19,9 @@
 (*           the mutation did happen in the child) -> "end"    (tool)      *)
 (*   drift : init = InitMap, before = ApplySeq(InitMap, pre) on MK         *)
 (*                                                 -> "drift"  (tool)      *)
-(*   abnormal outcome / missing snapshot / body ran in the parent process  *)
-(*                                                 -> "abnormal" (tool)    *)
+(*   abnormal outcome / missing snapshot         -> "abnormal" (tool)      *)
+(* (r.inparent lists subshell bodies that ran in the parent's process; it  *)
+(* is informational: what such a body changes shows as a leak.)            *)
 (* Every record is judged (no early stop); a line                          *)
 (* {"line": l, "id": .., "v": [[c, k, expected, observed], ..]} is printed *)
 (* for each record with a non-empty verdict.                               *)
@@ -55,7 +56,9 @@ Verdict(r) ==
   LET sc   == r.sc
       kind_ == sc.kind
       roles == Roles(kind_)
-      Vinit(k)   == Get(r.init, k)
+      \* the driver replaces an `init` equal to that of the first record by {"same": "1"}
+      init_ == IF "same" \in DOMAIN r.init THEN Rec[1].init ELSE r.init
+      Vinit(k)   == Get(init_, k)
       Vbefore(k) == DGet(r.d_before, Vinit(k), k)
       Vafter(k)  == DGet(r.d_after, Vbefore(k), k)
       Ventry(j, k) == DGet(r.ch[j].d_entry, Vbefore(k), k)
@@ -65,7 +68,7 @@ Verdict(r) ==
       RefBefore == {Ob[k] : k \in FdKeys}
       nch == Len(roles)
       abnormal ==
-         IF r.outcome # "completed" \/ r.miss # <<>> \/ r.inparent # <<>> \/ Len(r.ch) # nch
+         IF r.outcome # "completed" \/ r.miss # <<>> \/ Len(r.ch) # nch
          THEN {<<"abnormal", "outcome", "completed", r.outcome>>} ELSE {}
       drift0 == {<<"drift", k, InitMap[k], Vinit(k)>> : k \in {x \in MK : Vinit(x) # InitMap[x]}}
       Mb == ApplySeq(InitMap, sc.pre, "pre")
